@@ -44,11 +44,11 @@ void ContinuationsLite() {
 }
 
 template void ContinuationsStar<void, StopError, int>();
-template void ContinuationsStar<int, StopError, void>();
 template void ContinuationsStar<std::string, StopError, std::string>();
-template void ContinuationsStar<MoveOnly, UserError, void>();
 template void ContinuationsStar<Pinned, UserError, MoveOnly>();
 template void ContinuationsLite<void, StopError, void>();
+template void ContinuationsLite<int, StopError, void>();
+template void ContinuationsLite<MoveOnly, UserError, void>();
 template void ContinuationsLite<int, StopError, std::string>();
 template void ContinuationsLite<MoveOnly, StopError, MoveOnly>();
 template void ContinuationsLite<Pinned, StopError, Pinned>();
